@@ -112,7 +112,7 @@ Lemma num_add_x : forall a b, xok a = true -> xok b = true ->
   exists r, num_add a b = Ok r /\ xok r = true /\ qi_eq (qval r) (qi_add (qval a) (qval b)).
 Proof.
   intros a b Ha Hb. apply (has_val_xok a b (num_add a b)).
-  - intros E1 E2 W1 W2 x Hx. eapply add_good; eauto.
+  - intros E1 E2 W1 W2 x Hx. apply (add_good a b x); assumption.
   - exact Ha.
   - exact Hb.
   - apply num_add_correct; now apply qval_some.
@@ -121,7 +121,7 @@ Lemma num_mul_x : forall a b, xok a = true -> xok b = true ->
   exists r, num_mul a b = Ok r /\ xok r = true /\ qi_eq (qval r) (qi_mul (qval a) (qval b)).
 Proof.
   intros a b Ha Hb. apply (has_val_xok a b (num_mul a b)).
-  - intros E1 E2 W1 W2 x Hx. eapply mul_good; eauto.
+  - intros E1 E2 W1 W2 x Hx. apply (mul_good a b x); assumption.
   - exact Ha.
   - exact Hb.
   - apply num_mul_correct; now apply qval_some.
@@ -168,27 +168,34 @@ Lemma qi_mul_0_l : forall x, qi_eq (qi_mul qi_zero x) qi_zero.
 Proof. intros [a b]. qi_unfold. split; ring. Qed.
 
 (* ---------- laws as equalities of model results ---------- *)
+Ltac xval_l := etransitivity; [first [apply xadd_val | apply xmul_val]; auto|].
+Ltac xval_r := etransitivity; [|symmetry; first [apply xadd_val | apply xmul_val]; auto].
+
 Lemma xadd_comm : forall a b, xok a = true -> xok b = true -> xadd a b = xadd b a.
 Proof.
   intros a b Ha Hb. apply qval_inj; auto using xadd_xok.
-  rewrite !xadd_val by auto. apply qi_add_comm.
+  xval_l. xval_r. apply qi_add_comm.
 Qed.
 Lemma xadd_assoc : forall a b c, xok a = true -> xok b = true -> xok c = true ->
   xadd a (xadd b c) = xadd (xadd a b) c.
 Proof.
   intros a b c Ha Hb Hc. apply qval_inj; auto using xadd_xok.
-  rewrite !xadd_val by auto using xadd_xok. rewrite !xadd_val by auto. apply qi_add_assoc.
+  etransitivity; [apply xadd_val; auto using xadd_xok|].
+  etransitivity; [|symmetry; apply xadd_val; auto using xadd_xok].
+  rewrite (xadd_val b c), (xadd_val a b) by auto. apply qi_add_assoc.
 Qed.
 Lemma xmul_comm : forall a b, xok a = true -> xok b = true -> xmul a b = xmul b a.
 Proof.
   intros a b Ha Hb. apply qval_inj; auto using xmul_xok.
-  rewrite !xmul_val by auto. apply qi_mul_comm.
+  xval_l. xval_r. apply qi_mul_comm.
 Qed.
 Lemma xmul_assoc : forall a b c, xok a = true -> xok b = true -> xok c = true ->
   xmul a (xmul b c) = xmul (xmul a b) c.
 Proof.
   intros a b c Ha Hb Hc. apply qval_inj; auto using xmul_xok.
-  rewrite !xmul_val by auto using xmul_xok. rewrite !xmul_val by auto. apply qi_mul_assoc.
+  etransitivity; [apply xmul_val; auto using xmul_xok|].
+  etransitivity; [|symmetry; apply xmul_val; auto using xmul_xok].
+  rewrite (xmul_val b c), (xmul_val a b) by auto. apply qi_mul_assoc.
 Qed.
 
 Lemma xok_int : forall z, xok (NInt z) = true.
@@ -199,14 +206,14 @@ Proof. reflexivity. Qed.
 Lemma xadd_0_l : forall a, xok a = true -> xadd (NInt 0) a = a.
 Proof.
   intros a Ha. apply qval_inj; auto using xadd_xok, xok_int.
-  rewrite xadd_val by auto using xok_int. apply qi_add_0_l.
+  etransitivity; [apply xadd_val; auto using xok_int|]. apply qi_add_0_l.
 Qed.
 Lemma xadd_0_r : forall a, xok a = true -> xadd a (NInt 0) = a.
 Proof. intros a Ha. rewrite xadd_comm by auto using xok_int. now apply xadd_0_l. Qed.
 Lemma xmul_1_l : forall a, xok a = true -> xmul (NInt 1) a = a.
 Proof.
   intros a Ha. apply qval_inj; auto using xmul_xok, xok_int.
-  rewrite xmul_val by auto using xok_int. apply qi_mul_1_l.
+  etransitivity; [apply xmul_val; auto using xok_int|]. apply qi_mul_1_l.
 Qed.
 Lemma xmul_1_r : forall a, xok a = true -> xmul a (NInt 1) = a.
 Proof. intros a Ha. rewrite xmul_comm by auto using xok_int. now apply xmul_1_l. Qed.
@@ -214,7 +221,9 @@ Lemma xmul_add_distr_l : forall a b c, xok a = true -> xok b = true -> xok c = t
   xmul a (xadd b c) = xadd (xmul a b) (xmul a c).
 Proof.
   intros a b c Ha Hb Hc. apply qval_inj; auto using xadd_xok, xmul_xok.
-  rewrite xmul_val, xadd_val, xadd_val, !xmul_val by auto using xadd_xok, xmul_xok.
+  etransitivity; [apply xmul_val; auto using xadd_xok|].
+  etransitivity; [|symmetry; apply xadd_val; auto using xmul_xok].
+  rewrite (xadd_val b c), (xmul_val a b), (xmul_val a c) by auto.
   apply qi_mul_add_distr_l.
 Qed.
 
@@ -238,7 +247,7 @@ Lemma is_one_eq : forall a, xok a = true -> num_is_one a = true -> a = NInt 1.
 Proof.
   intros a Ha O. destruct a as [z|n d|a1 a2 a3 a4| | | | ]; try discriminate O; cbn [num_is_one] in O.
   - apply Z.eqb_eq in O. now subst.
-  - exfalso. destruct (xok_rat_low _ _ Ha) as [_ D]. unfold q_eqb in O. cbn in O.
+  - exfalso. destruct (xok_rat_low _ _ Ha) as [_ D]. unfold q_eqb in O. cbn [Qnum Qden] in O.
     apply andb_prop in O. destruct O as [_ O]. apply Pos.eqb_eq in O. contradiction.
 Qed.
 
